@@ -117,7 +117,18 @@ Fixpoint group_edges (l : list edge) : list (edge * N) :=
               end
   end.
 
-Definition name_of (interner : list N) (id : N) : option N := nth_error interner (N.to_nat id).
+(* list access by an N index (never converts a large N to nat) *)
+Fixpoint nthN {A} (l : list A) (i : N) : option A :=
+  match l with
+  | [] => None
+  | x :: t => if i =? 0 then Some x else nthN t (N.pred i)
+  end.
+Fixpoint updN {A} (f : A -> A) (i : N) (l : list A) : list A :=
+  match l with
+  | [] => []
+  | x :: t => if i =? 0 then f x :: t else x :: updN f (N.pred i) t
+  end.
+Definition name_of (interner : list N) (id : N) : option N := nthN interner id.
 Fixpoint filter_map {A B} (f : A -> option B) (l : list A) : list B :=
   match l with
   | [] => []
@@ -175,15 +186,9 @@ Record graph := mkGraph {
 Definition g0 : graph := mkGraph [] [] [] [].
 
 Definition g_live (g : graph) (n : N) : bool :=
-  match nth_error g.(g_nodes) (N.to_nat n) with Some x => x.(gn_live) | None => false end.
+  match nthN g.(g_nodes) n with Some x => x.(gn_live) | None => false end.
 Definition g_has_ext (g : graph) (ext : N) : bool := existsb (fun x => x.(gn_ext) =? ext) g.(g_nodes).
 
-Fixpoint upd_nth {A} (f : A -> A) (i : nat) (l : list A) : list A :=
-  match l, i with
-  | [], _ => []
-  | x :: t, O => f x :: t
-  | x :: t, S j => x :: upd_nth f j t
-  end.
 Definition label_add (l : N) (ls : list N) : list N := if memN l ls then ls else isort N.leb (l :: ls).
 Definition label_rem (l : N) (ls : list N) : list N := filter (fun x => negb (x =? l)) ls.
 
@@ -197,10 +202,10 @@ Definition g_apply (g : graph) (o : wop) : graph :=
       else mkGraph (g.(g_nodes) ++ [mkGNode ext (if lab =? UNLABELED then [] else [lab]) true])
                    g.(g_np) g.(g_edges) g.(g_ep)
   | OAddLabel n l =>
-      if g_live g n then mkGraph (upd_nth (fun x => mkGNode x.(gn_ext) (label_add l x.(gn_labels)) x.(gn_live)) (N.to_nat n) g.(g_nodes))
+      if g_live g n then mkGraph (updN (fun x => mkGNode x.(gn_ext) (label_add l x.(gn_labels)) x.(gn_live)) n g.(g_nodes))
                                  g.(g_np) g.(g_edges) g.(g_ep) else g
   | ORemLabel n l =>
-      if g_live g n then mkGraph (upd_nth (fun x => mkGNode x.(gn_ext) (label_rem l x.(gn_labels)) x.(gn_live)) (N.to_nat n) g.(g_nodes))
+      if g_live g n then mkGraph (updN (fun x => mkGNode x.(gn_ext) (label_rem l x.(gn_labels)) x.(gn_live)) n g.(g_nodes))
                                  g.(g_np) g.(g_edges) g.(g_ep) else g
   | OCreateEdge e =>
       if g_live g (e_src e) && g_live g (e_dst e)
@@ -210,7 +215,7 @@ Definition g_apply (g : graph) (o : wop) : graph :=
               (filter (fun kv => negb (edge_eqb e (fst (fst kv)))) g.(g_ep))
   | OTombNode n =>
       if g_live g n then
-      mkGraph (upd_nth (fun x => mkGNode x.(gn_ext) x.(gn_labels) false) (N.to_nat n) g.(g_nodes))
+      mkGraph (updN (fun x => mkGNode x.(gn_ext) x.(gn_labels) false) n g.(g_nodes))
               (filter (fun kv => negb (fst (fst kv) =? n)) g.(g_np))
               (filter (fun x => negb (touches n x)) g.(g_edges))
               (filter (fun kv => negb (touches n (fst (fst kv)))) g.(g_ep))
@@ -237,9 +242,9 @@ Definition g_eprop (g : graph) (e : edge) (k : N) : option N := assoc ek_eqb (e,
 Definition g_eprops (g : graph) (e : edge) : props :=
   isort fst_leb (filter_map (fun kv => if edge_eqb (fst (fst kv)) e then Some (snd (fst kv), snd kv) else None) g.(g_ep)).
 Definition g_labels (g : graph) (n : N) : list N :=
-  match nth_error g.(g_nodes) (N.to_nat n) with Some x => x.(gn_labels) | None => [] end.
+  match nthN g.(g_nodes) n with Some x => x.(gn_labels) | None => [] end.
 Definition g_ext (g : graph) (n : N) : N :=
-  match nth_error g.(g_nodes) (N.to_nat n) with Some x => x.(gn_ext) | None => 0 end.
+  match nthN g.(g_nodes) n with Some x => x.(gn_ext) | None => 0 end.
 Fixpoint index_of (p : gnode -> bool) (l : list gnode) (i : N) : N :=
   match l with [] => UNLABELED | x :: t => if p x then i else index_of p t (N.succ i) end.
 Definition g_lookup (g : graph) (ext : N) : N :=
